@@ -163,6 +163,38 @@ impl Client {
         r
     }
 
+    /// waits until a notification of `method` arrives that was not there before (responses arriving
+    /// meanwhile are kept for `wait_response`)
+    pub fn wait_for_notification(&mut self, method: &str, timeout: Duration) -> bool {
+        let deadline = Instant::now() + timeout;
+        let mut stash: Vec<Value> = Vec::new();
+        let mut found = false;
+        while !found {
+            let left = deadline.saturating_duration_since(Instant::now());
+            if left.is_zero() {
+                break;
+            }
+            // only what comes off the wire: the pending queue holds responses put aside earlier
+            let rx = &mut self.rx;
+            let got = self.rt.block_on(async { tokio::time::timeout(left, rx.recv()).await });
+            match got {
+                Ok(Some(v)) => {
+                    if v.get("method").is_some() && v.get("id").is_none() {
+                        found = v["method"] == method;
+                        self.notifications.push(v);
+                    } else {
+                        stash.push(v);
+                    }
+                }
+                _ => break,
+            }
+        }
+        for v in stash {
+            self.pending.push_back(v);
+        }
+        found
+    }
+
     pub fn request(&mut self, method: &str, params: Value, timeout: Duration) -> Result<Value, RecvError> {
         let id = self.send_request(method, params);
         self.wait_response(id, timeout)
